@@ -9,10 +9,12 @@ import tempfile
 from harness.core import pool, tb
 from harness.gen import systems
 
-PROOF_MODULE = "OdeVerif.Proofs.C07"
+PROOF_MODULE = ["OdeVerif.Proofs.C07", "OdeVerif.Proofs.RefineCli"]
+GENERATED = ["CliTable"]
 THEOREMS = ["OdeVerif.C16.flags_passed_through", "OdeVerif.C16.content_eq_api", "OdeVerif.C16.failure_nonzero_no_file",
             "OdeVerif.C16.written_iff_all_succeeded", "OdeVerif.C16.resultName_spec", "OdeVerif.C16.resultName_last_extension_only",
-            "OdeVerif.C16.resultName_no_extension", "OdeVerif.C16.resultName_dot_in_directory"]
+            "OdeVerif.C16.resultName_no_extension", "OdeVerif.C16.resultName_dot_in_directory",
+            "OdeVerif.Refine.cli_keywords_pass_through", "OdeVerif.Refine.cli_arguments_as_modelled", "OdeVerif.Refine.cli_preserve_normalisation_as_modelled", "OdeVerif.Refine.cli_result_stem_as_modelled", "OdeVerif.Refine.cli_steps_as_modelled"]
 LEVEL = "proof"
 
 
